@@ -446,7 +446,12 @@ func (s *BaseNodeService) ProposeSignMessages(dtoMsg *dto.ProposeSignBatchMessag
 		return fmt.Errorf("failed to determine FSM instance state: %w", err)
 	}
 
-	if fsmState != sif.StateSigningIdle {
+	// A cancelled batch is left lazily: the round goes back to idle when its next message is
+	// handled (see processMessage). No message ever comes if nobody may propose, so a proposal is
+	// possible in the cancelled states as well.
+	if fsmState != sif.StateSigningIdle &&
+		fsmState != sif.StateSigningPartialSignsAwaitCancelledByError &&
+		fsmState != sif.StateSigningPartialSignsAwaitCancelledByTimeout {
 		return fmt.Errorf("required FSM state is %s, but have %s", sif.StateSigningIdle, fsmState)
 	}
 
